@@ -16,6 +16,8 @@ func (v *Vue) evalAttributes(ctx VueContext, n *html.Node) (map[string]any, erro
 	}
 
 	results := map[string]any{}
+	// names of the bound attributes in the order they appear on the element
+	var boundOrder []string
 
 	var newAttrs []html.Attribute
 
@@ -46,6 +48,9 @@ func (v *Vue) evalAttributes(ctx VueContext, n *html.Node) (map[string]any, erro
 			if !helpers.IsTruthy(boundValue) {
 				continue
 			}
+			if _, seen := results[boundName]; !seen {
+				boundOrder = append(boundOrder, boundName)
+			}
 			results[boundName] = boundValue
 		default:
 			var err error
@@ -63,7 +68,8 @@ func (v *Vue) evalAttributes(ctx VueContext, n *html.Node) (map[string]any, erro
 	}
 
 	// Second pass: merge bound attributes with static ones
-	for attrName, boundValue := range results {
+	for _, attrName := range boundOrder {
+		boundValue := results[attrName]
 		// Check if there's a static attribute with the same name
 		staticIdx := -1
 		for i, a := range newAttrs {
